@@ -39,7 +39,7 @@ ASSUMPTIONS = ['_RangeIterator read-ahead size is >= 1 (max_batch_size >= 1).',
 
 
 def run(ctx: Ctx):
-  for r in (r1, r2, r3, r4, r5, r6, r7, r8, r9):
+  for r in (r1, r2, r3, r4, r6, r7, r8, r9):
     ctx.guard(r)
 
 
@@ -371,46 +371,10 @@ def r4(ctx: Ctx):
   ctx.floor(rule, 4)
 
 
-def r5(ctx: Ctx):
-  rule = 'R-C09-5'
-  ctx.rule(rule, 'None-defaults of integer bounds: a parameter annotated'
-           ' `int | None` in the sequence/range code is defaulted with an'
-           ' `is None` test, never by truthiness (`x or default`, `if not x`)'
-           ' — 0 is a legitimate bound (an empty slice at a sub-sequence'
-           ' boundary)')
-  repo = ctx.repo
-  n = 0
-  for mod in (IO, 'utils.iter_utils'):
-    mi = repo.module(mod)
-    fns = list(mi.functions.values()) + [m for c in mi.classes.values() for m in c.methods.values()]
-    for fi in fns:
-      a = fi.node.args
-      cand = [x.arg for x in a.posonlyargs + a.args + a.kwonlyargs
-              if x.annotation is not None and 'None' in unparse(x.annotation)
-              and 'int' in unparse(x.annotation)]
-      for pn in cand:
-        n += 1
-        bad = None
-        for x in walk_no_nested(fi.node):
-          if isinstance(x, ast.BoolOp) and isinstance(x.op, ast.Or) and isinstance(
-              x.values[0], ast.Name) and x.values[0].id == pn:
-            bad = x
-          if isinstance(x, (ast.If, ast.IfExp, ast.While)):
-            t = x.test
-            if isinstance(t, ast.UnaryOp) and isinstance(t.op, ast.Not):
-              t = t.operand
-            if isinstance(t, ast.Name) and t.id == pn:
-              bad = x.test
-        if bad is not None:
-          ctx.fail(rule, fi, bad,
-                   f'{fi.qualname}: the optional integer bound `{pn}` is'
-                   ' defaulted by truthiness, so an explicit 0 is treated as'
-                   ' "not given": an empty slice that starts on a sub-sequence'
-                   ' boundary yields that whole sub-sequence (shards overlap,'
-                   ' report a wrong length)')
-        else:
-          ctx.ok(rule, fi, f'{fi.qualname}: `{pn}` defaulted with `is None`', fi.node)
-  ctx.floor(rule, 2, n)
+# R-C09-5 (None-defaults of integer bounds by truthiness) was withdrawn: after fix
+# da5c558 an explicit bound of 0 can no longer reach _RangeIterator/_index_slice,
+# so `stop or len(data)` is behaviour-preserving and the rule would be a false
+# alarm (see DESIGN.md section 5).
 
 
 class _Opaque(af.AffEval):
@@ -723,9 +687,6 @@ from mlmverif.selfcheck import B, OK  # noqa: E402
 
 _F = 'chainables/io.py'
 VARIANTS = [
-    B('stop-falsy-zero', 'utils/iter_utils.py',
-      '    self.stop = len(data) if stop is None else stop', '    self.stop = stop or len(data)',
-      'R-C09-5'),
     B('remainder-off-by-one', _F,
       '      adjusted_interval = interval + 1 if i < remainder else interval',
       '      adjusted_interval = interval + 1 if i <= remainder else interval', 'R-C09-1'),
